@@ -251,6 +251,28 @@ def worker(job):
           'samples': [{'slicers': kind, 'batch sizes': list(comp), 'stacked aggregates': stacked, 'paths': res.paths, 'claims_proved_unsat': res.discharged}]}
 
 
+def replay(data):
+  """./run.py C02 --replay FILE : re-runs the recorded scenario on the recorded values with real numpy on the current /repo."""
+  import ast
+  job = ast.literal_eval(data['job']) if isinstance(data['job'], str) else data['job']
+  values = ast.literal_eval(data['values']) if isinstance(data['values'], str) else data['values']
+  kind, comp, stacked = job
+  build = build_mask(tuple(comp), kind == 'mask-replace') if kind.startswith('mask') else build_group(kind, tuple(comp), stacked)
+  try:
+    out = srun.run_concrete(build, dict(values))
+  except Exception as e:  # pylint: disable=broad-exception-caught
+    print(f'real code raised {type(e).__name__}: {e}'); print('REPRODUCED'); return 1
+  claim = data['claim']
+  if claim.startswith('reported key set'):
+    bad = out['keys'] != out['want_keys']; print(f"keys={out['keys']}\nwant={out['want_keys']}")
+  elif claim.startswith('per-key'):
+    bad = not symx.concrete_close(out['vals'], out['want']); print(f"vals={out['vals']}\nwant={out['want']}")
+  else:
+    bad = not symx.concrete_close(out['unsliced_with'], out['unsliced_without']); print(f"with={out['unsliced_with']}\nwithout={out['unsliced_without']}")
+  print('REPRODUCED' if bad else 'NOT-REPRODUCED')
+  return 1 if bad else 0
+
+
 def classify(r, f):
   return f"{r['job'][0]}:{f['claim']}"
 
